@@ -7,6 +7,8 @@ Not theorems (DESIGN §8): convergence of `least_squares` from perturbed starts 
 the content of numpy's generator (a parameter `Rng` here).
 -/
 import GlotaranProofs.Lemmas.C14Recover
+import GlotaranProofs.Lemmas.C14Gen
+import GlotaranProofs.Lemmas.C14Zero
 namespace Glotaran.C14
 open Glotaran.LinAlg Glotaran.C02
 
@@ -93,6 +95,166 @@ theorem simulate_full_model_entry (mcs gmcs : List McOut) (nModel nGlobal : Nat)
 
 example : simulateFullModel [⟨⟨["s1", "s2"], .d2 [[1, 2], [3, 4], [5, 7]]⟩, some 2⟩]
     [⟨⟨["s2", "s1"], .d2 [[1, 2], [3, 4]]⟩, none⟩] 3 2 = .ok [[8, 20], [20, 48], [34, 82]] := by decide +kernel
+
+/-! ### the source of `simulation.py`, regenerated (GlotaranModel/Generated/C14Fns.lean), is the model
+
+`harness/props/_c14_translate.py` translates the Python source of `simulate_from_clp`, `simulate_full_model` and `simulate`
+statement by statement into the vocabulary of GlotaranModel/C14Py.lean on every run; the theorems below are about that
+regenerated text, so an edit of the source re-opens them. -/
+
+/-- **`simulate_from_clp` as written is the model's `simulateFromClp`**, for every dataset model, all axes of any length
+    and *every clp table in either layout*: whatever 2-D array presents the table (`ls`, `rows`) along the global
+    dimension — layout (global, clp_label) or (clp_label, global), any coordinate values (or none) on the global dimension,
+    labels in any order, unused labels, extra rows, duplicate or missing labels, too few rows — the translated function
+    returns what the model returns (same data, or the same error in the same precedence), on the dimensions and
+    coordinates of the request.  An array without a `clp_label` coordinate is refused before anything is calculated. -/
+theorem generated_simulate_from_clp_eq_model (dm : Py.DatasetModel) (gdim : String) (gaxis : Vec) (mdim : String)
+    (maxis : Vec) (hg : gdim ≠ "clp_label") :
+    (∀ (ls : List String) (rows : List Vec) (transposed : Bool) (gcoord : Option Vec),
+      Generated.simulate_from_clp dm gdim gaxis mdim maxis (arrayOfTable gdim ls rows transposed gcoord) =
+        (simulateFromClp dm.mcs maxis.length gaxis.length ⟨some ls, rows⟩).map (mkResult mdim maxis gdim gaxis)) ∧
+    (∀ (a : Py.DataArray) (ls : List String) (rows : List Vec), Presents gdim a ls rows →
+      Generated.simulate_from_clp dm gdim gaxis mdim maxis a =
+        (simulateFromClp dm.mcs maxis.length gaxis.length ⟨some ls, rows⟩).map (mkResult mdim maxis gdim gaxis)) ∧
+    (∀ (a : Py.DataArray) (rows : List Vec), a.hasCoord "clp_label" = false →
+      Generated.simulate_from_clp dm gdim gaxis mdim maxis a =
+        (simulateFromClp dm.mcs maxis.length gaxis.length ⟨none, rows⟩).map (mkResult mdim maxis gdim gaxis)) :=
+  ⟨fun ls rows tr gc => gen_from_clp dm gdim gaxis mdim maxis _ ls rows (arrayOfTable_presents gdim hg ls rows tr gc),
+   fun a ls rows P => gen_from_clp dm gdim gaxis mdim maxis a ls rows P,
+   fun a rows h => gen_from_clp_nolabel dm gdim gaxis mdim maxis a h rows⟩
+
+/-- the translated source, run: label order (s2, zz, s1) against matrix labels (s1, s2); both layouts and a foreign global
+    coordinate give the model's data on the requested coordinates; a duplicated label and a short table raise -/
+def exampleDm : Py.DatasetModel := ⟨"time", [⟨⟨["s1", "s2"], .d2 [[1, 2], [3, 4], [5, 7]]⟩, none⟩], []⟩
+
+example :
+    Generated.simulate_from_clp exampleDm "spectral" [5, 6] "time" [0, 1, 2]
+      (arrayOfTable "spectral" ["s2", "zz", "s1"] [[10, 7, 1], [20, 7, 2]] false (some [1005, 1006])) =
+      .ok ⟨("time", "spectral"), [("time", [0, 1, 2]), ("spectral", [5, 6])], [[21, 42], [43, 86], [75, 150]]⟩ ∧
+    Generated.simulate_from_clp exampleDm "spectral" [5, 6] "time" [0, 1, 2]
+      (arrayOfTable "spectral" ["s2", "zz", "s1"] [[10, 7, 1], [20, 7, 2]] true none) =
+      .ok ⟨("time", "spectral"), [("time", [0, 1, 2]), ("spectral", [5, 6])], [[21, 42], [43, 86], [75, 150]]⟩ ∧
+    Generated.simulate_from_clp exampleDm "spectral" [5, 6] "time" [0, 1, 2]
+      (arrayOfTable "spectral" ["s2", "s2", "s1"] [[10, 7, 1], [20, 7, 2]] true none) = .error .dupLabel ∧
+    Generated.simulate_from_clp exampleDm "spectral" [5, 6] "time" [0, 1, 2]
+      (arrayOfTable "spectral" ["s2", "s1"] [[10, 1]] false none) = .error .index := by
+  decide +kernel
+
+/-- **`simulate_full_model` as written is the model's `simulateFullModel`**: the clp table is the transposed global matrix
+    labelled by the global clp labels; an index-dependent global matrix is refused.  `GlobalShapeOK` is the contract of
+    `calculate_dataset_matrix`: the global matrix has one row per global-axis point and one column per global clp label. -/
+theorem generated_simulate_full_model_eq_model (dm : Py.DatasetModel) (gdim : String) (gaxis : Vec) (mdim : String)
+    (maxis : Vec) (hg : gdim ≠ "clp_label") (hs : GlobalShapeOK dm gaxis) :
+    Generated.simulate_full_model dm gdim gaxis mdim maxis =
+      (simulateFullModel dm.mcs dm.gmcs maxis.length gaxis.length).map (mkResult mdim maxis gdim gaxis) :=
+  gen_full_model dm gdim gaxis mdim maxis hg hs
+
+example :
+    Generated.simulate_full_model ⟨"time", [⟨⟨["s1", "s2"], .d2 [[1, 2], [3, 4], [5, 7]]⟩, some 2⟩],
+      [⟨⟨["s2", "s1"], .d2 [[1, 2], [3, 4]]⟩, none⟩]⟩ "spectral" [5, 6] "time" [0, 1, 2] =
+      .ok ⟨("time", "spectral"), [("time", [0, 1, 2]), ("spectral", [5, 6])], [[8, 20], [20, 48], [34, 82]]⟩ := by
+  decide +kernel
+
+example : GlobalShapeOK ⟨"time", [⟨⟨["s1", "s2"], .d2 [[1, 2], [3, 4], [5, 7]]⟩, some 2⟩],
+    [⟨⟨["s2", "s1"], .d2 [[1, 2], [3, 4]]⟩, none⟩]⟩ [5, 6] := by
+  intro gm g h hb
+  have : gm = ⟨["s2", "s1"], .d2 [[1, 2], [3, 4]]⟩ := by
+    have h' : some gm = some ⟨["s2", "s1"], .d2 [[1, 2], [3, 4]]⟩ := by rw [← h]; rfl
+    exact Option.some.inj h'
+  subst this
+  cases hb
+  exact ⟨rfl, by decide⟩
+
+/-- **`simulate` as written is the model's `simulateCall`**, with numpy's global generator as a parameter: the model
+    dimension's axis and the FIRST other entry of `coordinates` (missing entries raise), dispatch on global megacomplexes /
+    clp / neither, then — only with `noise` — reseeding exactly when a seed is given and ONE draw of `model × global`
+    normals added as `data + std · z`; the generator state is threaded and survives an exception unchanged.  The clp
+    argument presents the model's clp table along the global dimension (`ClpPresents`; e.g. `arrayOfTable`). -/
+theorem generated_simulate_eq_model {σ : Type} (rng : Rng σ) (st : σ) (dm : Py.DatasetModel)
+    (coords : List (String × Vec)) (clpArr : Option Py.DataArray) (t : Option ClpTable) (noise : Bool) (std : Rat)
+    (seed : Option Nat)
+    (hclp : ∀ maxis gdim gaxis,
+      SimCall.resolve ⟨dm.model_dimension, coords, dm.mcs, dm.gmcs, t, none⟩ = .ok (maxis, gdim, gaxis) →
+      ClpPresents gdim clpArr t ∧ (dm.gmcs ≠ [] → gdim ≠ "clp_label" ∧ GlobalShapeOK dm gaxis)) :
+    Generated.simulate rng dm coords clpArr noise std seed st =
+      simulateCall rng st ⟨dm.model_dimension, coords, dm.mcs, dm.gmcs, t, if noise then some ⟨std, seed⟩ else none⟩ :=
+  gen_simulate rng st dm coords clpArr t noise std seed hclp
+
+/-- … in particular for a clp-driven dataset whose clp table is handed in as an array in either layout -/
+theorem generated_simulate_eq_model_table {σ : Type} (rng : Rng σ) (st : σ) (dm : Py.DatasetModel)
+    (coords : List (String × Vec)) (ls : List String) (rows : List Vec) (transposed : Bool) (gcoord : Option Vec)
+    (noise : Bool) (std : Rat) (seed : Option Nat) (hnog : dm.gmcs = [])
+    (hdim : ∀ p ∈ coords, p.1 ≠ "clp_label") (gname : String)
+    (hgname : ∀ maxis gdim gaxis,
+      SimCall.resolve ⟨dm.model_dimension, coords, dm.mcs, dm.gmcs, some ⟨some ls, rows⟩, none⟩ = .ok (maxis, gdim, gaxis) →
+      gdim = gname) :
+    Generated.simulate rng dm coords (some (arrayOfTable gname ls rows transposed gcoord)) noise std seed st =
+      simulateCall rng st ⟨dm.model_dimension, coords, dm.mcs, dm.gmcs, some ⟨some ls, rows⟩,
+        if noise then some ⟨std, seed⟩ else none⟩ := by
+  apply gen_simulate
+  intro maxis gdim gaxis h
+  have hgd := hgname maxis gdim gaxis h
+  subst hgd
+  refine ⟨?_, fun hne => absurd hnog hne⟩
+  simp only [ClpPresents]
+  apply arrayOfTable_presents
+  -- the global dimension is a key of `coordinates`
+  unfold SimCall.resolve at h
+  simp only at h
+  cases hl : coords.lookup dm.model_dimension with
+  | none => simp [hl] at h
+  | some ma =>
+    simp only [hl] at h
+    cases hf : coords.find? (fun p => p.1 != dm.model_dimension) with
+    | none => simp [hf] at h
+    | some p =>
+      simp only [hf, Except.ok.injEq, Prod.mk.injEq] at h
+      rw [← h.2.1]
+      exact hdim p (List.mem_of_find?_eq_some hf)
+
+/-- the translated `simulate`, run with a replaying generator: coordinates given global-first, seed 3, std 1/2 — and the
+    same call with only the model dimension / without the model dimension in `coordinates` -/
+example :
+    (Generated.simulate (tapeRng [1, 2, 3, 4, 5, 6]) exampleDm [("spectral", [5, 6]), ("time", [0, 1, 2])]
+      (some (arrayOfTable "spectral" ["s2", "zz", "s1"] [[10, 7, 1], [20, 7, 2]] true none)) true (1 / 2) (some 3)
+      [9, 9, 9, 9, 9, 9, 9]) =
+      (.ok ⟨("time", "spectral"), [("time", [0, 1, 2]), ("spectral", [5, 6])], [[43 / 2, 43], [89 / 2, 88], [155 / 2, 153]]⟩, []) ∧
+    (Generated.simulate (tapeRng [1]) exampleDm [("time", [0, 1, 2])] none false 1 none [7]) = (.error .noGlobalDim, [7]) ∧
+    (Generated.simulate (tapeRng [1]) exampleDm [("spectral", [5, 6])] none false 1 none [7]) = (.error .coordKey, [7]) ∧
+    (Generated.simulate (tapeRng [1]) exampleDm [("spectral", [5, 6]), ("time", [0, 1, 2])] none true 1 (some 3) [7]) =
+      (.error .noClp, [7]) := by
+  decide +kernel
+
+/-- **The returned dataset is on the dimensions and coordinates of the request** (never on those of the clp table): model
+    dimension first, then the first other entry of `coordinates`, each with the axis handed in; the data are `simulate`'s
+    for the lengths of those axes. -/
+theorem simulated_dataset_on_requested_coordinates {σ : Type} (rng : Rng σ) (st : σ) (c : SimCall) (r : SimResult)
+    (h : (simulateCall rng st c).1 = .ok r) :
+    ∃ maxis gdim gaxis, c.coords.lookup c.modelDim = some maxis ∧
+      c.coords.find? (fun p => p.1 != c.modelDim) = some (gdim, gaxis) ∧
+      r.dims = (c.modelDim, gdim) ∧ r.coords = [(c.modelDim, maxis), (gdim, gaxis)] ∧
+      (simulate rng st ⟨maxis.length, gaxis.length, c.mcs, c.gmcs, c.clp, c.noise⟩).1 = .ok r.data := by
+  unfold simulateCall SimCall.resolve at h
+  cases hl : c.coords.lookup c.modelDim with
+  | none => simp [hl] at h
+  | some maxis =>
+    simp only [hl] at h
+    cases hf : c.coords.find? (fun p => p.1 != c.modelDim) with
+    | none => simp [hf] at h
+    | some p =>
+      simp only [hf] at h
+      refine ⟨maxis, p.1, p.2, rfl, rfl, ?_⟩
+      cases hs : (simulate rng st ⟨maxis.length, p.2.length, c.mcs, c.gmcs, c.clp, c.noise⟩).1 with
+      | error e => simp [hs, Except.map] at h
+      | ok d =>
+        simp only [hs, Except.map, Except.ok.injEq] at h
+        subst h
+        exact ⟨rfl, rfl, rfl⟩
+
+example : (simulateCall (tapeRng []) [] ⟨"time", [("spectral", [5, 6]), ("time", [0, 1, 2]), ("extra", [1])],
+    [⟨⟨["s1", "s2"], .d2 [[1, 2], [3, 4], [5, 7]]⟩, none⟩], [], some ⟨some ["s2", "s1"], [[10, 1], [20, 2]]⟩, none⟩).1 =
+    .ok ⟨("time", "spectral"), [("time", [0, 1, 2]), ("spectral", [5, 6])], [[21, 42], [43, 86], [75, 150]]⟩ := by
+  decide +kernel
 
 /-! ### the linear problem at the truth -/
 
@@ -357,6 +519,30 @@ example : noiseless exampleFullS.inp = .ok [[0, 1], [0, 2]] ∧
 example : FullColRank [[1, 0], [6, 0], [0, 2], [0, 2]] (["gx", "s1"].length * ["s1"].length) :=
   fullColRank_of_cert _ [[1, 0, 0, 0], [0, 0, 1 / 2, 0]] 2 (by decide +kernel)
 
+/-- **A weighted full model at the truth** (dataset weight variable or model `weights:` — either way the weight the data
+    provider hands to the fit, one row per model-axis point): the simulated data are reproduced with a zero residual block
+    and no penalty, the result carries the model clp labels, and — full column rank of the row-weighted Kronecker matrix
+    provided — the reported clp table is the identity pairing of global and model clp labels (1 where the labels coincide,
+    0 elsewhere).  VP and NNLS. -/
+theorem full_model_weighted_truth (sd : SimDataset) (lm gm : LMat) (m g : Mat) (w : Mat) (hw : sd.weight = some w)
+    (ok : SimFullOK sd lm gm m g) (data : Mat) (hsim : noiseless sd.inp = .ok data) (sv : Solver) :
+    w.length = sd.inp.nModel ∧
+    (∀ res pens, unlinkedDataset {} sv (sd.toDataset data) = some (res, pens) → (∀ x ∈ res, x = 0) ∧ pens = []) ∧
+    (∀ r, C03.unlinkedResult {} sv (sd.toDataset data) = some r →
+      r.clpLabels = lm.labels ∧
+      ∀ full flat, fullModelProblem (sd.toDataset data) = some (full, flat) →
+        flat = mulVec full (pairing gm.labels lm.labels) ∧
+        (FullColRank full (gm.labels.length * lm.labels.length) →
+          r.clps = gm.labels.map (fun a => lm.labels.map (fun l => if a = l then (1 : Rat) else 0)))) := by
+  refine ⟨ok.weightShape w hw, fun res pens h => unlinkedDataset_full sd lm gm m g ok data hsim sv res pens h, ?_⟩
+  intro r h
+  obtain ⟨h1, h2⟩ := unlinkedResult_full sd lm gm m g ok data hsim sv r h
+  refine ⟨h1, fun full flat hf => ⟨(fullModel_consistent sd lm gm m g ok data hsim full flat hf).1, h2 full flat hf⟩⟩
+
+/-- non-vacuity: the weighted examples above (`exampleFullW`, `exampleFullS`) carry a weight -/
+example : exampleFullS.weight = some [[1, 2], [3, 1]] ∧ exampleFullW.weight = some [[1, 2, 1], [2, 1, 1 / 2], [1, 1, 4]] :=
+  ⟨rfl, rfl⟩
+
 /-! ### linked groups -/
 
 /-- **The output of `create_aligned_global_axes`** (`C02.alignAxes`, the definition the objective of a
@@ -577,6 +763,142 @@ example : (C03.linkedResults {} exG).map (fun rs => rs.map (fun r => (r.clpLabel
     some [(["s1"], [[2]]), (["s1", "s2"], [[2, 3]])] := by decide +kernel
 
 example : ([[1], [1]] : List (List Rat))[0].Pairwise (· < ·) := by simp
+
+/-! #### members with the same labels in different orders; global points that nearly coincide at tolerance 0 -/
+
+/-- **`create_aligned_global_axes` at link tolerance 0 leaves every global axis as it is**: a point is linked to a
+    point of another dataset only if the two are *equal*; 10000 and 10000 + 1/16 (6 · 10⁻⁶ relative) are two problems. -/
+theorem zero_tolerance_links_only_equal_points (axes : List (List Rat)) (m : Method) (aligned : List (List Rat))
+    (h : alignAxes axes 0 m = some aligned) : aligned = axes :=
+  alignAxes_tol_zero axes m aligned h
+
+/-- **Round trip of a linked group at tolerance 0, whatever the label orders.**  The members' matrices may carry the
+    shared clp labels in any order (`ms[k].lm.labels` are arbitrary duplicate-free lists — e.g. (decay, artifact) in one
+    dataset and (artifact, decay) in the other — and so are the column orders `ms[k].ls` of the clp tables): the stacked
+    problems pair coefficients *by label*.  At tolerance 0 the aligned axes are the members' own axes (nothing is merged
+    that is not equal), the objective at the truth has a zero residual part and no penalties, and every member's result
+    carries its own labels in its own order with — full column rank provided — exactly its generating clps over its scale,
+    one row per own global point. -/
+theorem truth_is_zero_objective_any_label_order (g : Group) (ms : List LinkedMember) (aligned : List (List Rat))
+    (F : Rat → String → Rat) (H : LinkedAtTruth g ms aligned F) (htol : g.tol = 0)
+    (hnn : g.solver = .nnls → ∀ v l, 0 ≤ F v l) :
+    aligned = ms.map (fun m => m.sd.globalAxis) ∧
+    (∀ res pens, linkedGroup {} g = some (res, pens) → (∀ x ∈ res, x = 0) ∧ pens = []) ∧
+    (∀ rs, C03.linkedResults {} g = some rs → rs.length = ms.length ∧
+      ∀ k (hk : k < rs.length) (hk1 : k < ms.length),
+        rs[k].clpLabels = ms[k].lm.labels ∧
+        ((∀ axis ps, linkedProblems {} g = some (axis, ps) → ∀ p ∈ ps, p.x ∈ ms[k].sd.globalAxis →
+            FullColRank p.reduced.m p.fullLabels.length) →
+          rs[k].clps = ((aligned.foldl sortedUnion []).filter (fun v => ms[k].sd.globalAxis.contains v)).map
+            (fun v => ms[k].lm.labels.map (F v)) ∧
+          ∀ v ∈ ms[k].sd.globalAxis, ms[k].lm.labels.map (F v) = vscale (1 / ms[k].sd.scale.getD 1)
+            (ms[k].lm.labels.map (fun l =>
+              (ms[k].rows.getD (ms[k].sd.globalAxis.idxOf v) []).getD (ms[k].ls.idxOf l) 0)))) := by
+  have hal : aligned = ms.map (fun m => m.sd.globalAxis) := by
+    have h := H.alignment
+    rw [htol] at h
+    rw [alignAxes_tol_zero _ _ _ h, H.datasets]
+    simp [LinkedMember.dataset, SimDataset.toDataset, Function.comp_def]
+  refine ⟨hal, fun res pens h => linkedGroup_sim g ms aligned F H hnn res pens h, ?_⟩
+  intro rs h
+  obtain ⟨h1, h2⟩ := linked_clps_at_truth g ms aligned F H hnn rs h
+  refine ⟨h1, ?_⟩
+  intro k hk hk1
+  have hk2 : k < aligned.length := by rw [hal]; simpa using hk1
+  have hax : aligned[k] = ms[k].sd.globalAxis := by simp [hal]
+  obtain ⟨e1, e2⟩ := h2 k hk hk1 hk2
+  refine ⟨e1, ?_⟩
+  intro hr
+  obtain ⟨e3, e4⟩ := e2 (by rw [hax]; exact hr)
+  rw [hax] at e3 e4
+  exact ⟨e3, fun v hv => (e4 v hv).2⟩
+
+/-- the worked example: `d1` with labels (decay, artifact) on the axis (10000, 10001), `d2` with labels (artifact, decay)
+    on (10000 + 1/16, 10001), tolerance 0: three stacked problems (10000: `d1` alone, 10000 + 1/16: `d2` alone, 10001:
+    both, coefficients paired by label) -/
+def loM1 : LinkedMember :=
+  { sd := { label := "d1", globalAxis := [10000, 10001], weight := none, scale := none,
+            inp := { nModel := 3, nGlobal := 2, mcs := [⟨⟨["decay", "artifact"], .d2 [[1, 0], [0, 1], [1, 1]]⟩, none⟩], gmcs := [],
+                     clp := some ⟨some ["decay", "artifact"], [[2, 3], [4, 5]]⟩, noise := none } },
+    lm := ⟨["decay", "artifact"], .d2 [[1, 0], [0, 1], [1, 1]]⟩, ls := ["decay", "artifact"], rows := [[2, 3], [4, 5]],
+    data := [[2, 4], [3, 5], [5, 9]] }
+def loM2 : LinkedMember :=
+  { sd := { label := "d2", globalAxis := [10000 + 1 / 16, 10001], weight := none, scale := none,
+            inp := { nModel := 3, nGlobal := 2, mcs := [⟨⟨["artifact", "decay"], .d2 [[1, 0], [0, 1], [1, 2]]⟩, none⟩], gmcs := [],
+                     clp := some ⟨some ["decay", "artifact"], [[7, 1], [4, 5]]⟩, noise := none } },
+    lm := ⟨["artifact", "decay"], .d2 [[1, 0], [0, 1], [1, 2]]⟩, ls := ["decay", "artifact"], rows := [[7, 1], [4, 5]],
+    data := [[1, 5], [7, 4], [15, 13]] }
+def loF : Rat → String → Rat := fun v l =>
+  if v = 10000 then (if l = "decay" then 2 else 3) else if v = 10001 then (if l = "decay" then 4 else 5)
+  else (if l = "decay" then 7 else 1)
+def loG : Group := ⟨true, .vp, 0, .nearest, [loM1.dataset, loM2.dataset]⟩
+
+private theorem loM_ok (m : LinkedMember) (hm : m = loM1 ∨ m = loM2) : SimOK m.sd m.lm m.ls m.rows := by
+  rcases hm with rfl | rfl
+  all_goals
+    exact {
+      noGlobal := rfl, clp := rfl, matrix := by rfl, axis := rfl,
+      nrows := by
+        intro i hi
+        have : i = 0 ∨ i = 1 := by simp [loM1, loM2] at hi; omega
+        rcases this with rfl | rfl <;> decide +kernel
+      width := by
+        intro i hi
+        have : i = 0 ∨ i = 1 := by simp [loM1, loM2] at hi; omega
+        rcases this with rfl | rfl <;> decide +kernel
+      scale := by decide +kernel }
+
+private theorem loG_atTruth : LinkedAtTruth loG [loM1, loM2] [[10000, 10001], [10000 + 1 / 16, 10001]] loF where
+  linked := rfl
+  datasets := rfl
+  ok := by
+    intro m hm
+    simp only [List.mem_cons, List.not_mem_nil, or_false] at hm
+    exact loM_ok m hm
+  sim := by
+    intro m hm
+    simp only [List.mem_cons, List.not_mem_nil, or_false] at hm
+    rcases hm with rfl | rfl <;> decide +kernel
+  nonempty := by
+    intro m hm
+    simp only [List.mem_cons, List.not_mem_nil, or_false] at hm
+    rcases hm with rfl | rfl <;> decide
+  weightShape := by
+    intro m hm w hw
+    simp only [List.mem_cons, List.not_mem_nil, or_false] at hm
+    rcases hm with rfl | rfl <;> simp [loM1, loM2] at hw
+  nodup := by
+    intro m hm
+    simp only [List.mem_cons, List.not_mem_nil, or_false] at hm
+    rcases hm with rfl | rfl <;> decide
+  alignment := by decide +kernel
+  common := by
+    intro k hk hk' i hi l hl
+    have hk2 : k = 0 ∨ k = 1 := by simp at hk; omega
+    rcases hk2 with rfl | rfl
+    · have hi2 : i = 0 ∨ i = 1 := by simp at hi; omega
+      simp only [List.getElem_cons_zero, loM1, List.mem_cons, List.not_mem_nil, or_false] at hl
+      rcases hi2 with rfl | rfl <;> rcases hl with rfl | rfl <;>
+        simp only [List.getElem_cons_zero, List.getElem_cons_succ] <;> decide +kernel
+    · have hi2 : i = 0 ∨ i = 1 := by simp at hi; omega
+      simp only [List.getElem_cons_succ, List.getElem_cons_zero, loM2, List.mem_cons, List.not_mem_nil, or_false] at hl
+      rcases hi2 with rfl | rfl <;> rcases hl with rfl | rfl <;>
+        simp only [List.getElem_cons_zero, List.getElem_cons_succ] <;> decide +kernel
+
+example : ∃ aligned, LinkedAtTruth loG [loM1, loM2] aligned loF ∧ loG.tol = 0 := ⟨_, loG_atTruth, rfl⟩
+
+/-- not linked at 10000 / 10000 + 1/16, linked at 10001; zero objective; each dataset gets its clps back in its own label
+    order: `d1` (decay, artifact) = (2, 3), (4, 5); `d2` (artifact, decay) = (1, 7), (5, 4) -/
+example : alignAxes [[10000, 10001], [10000 + 1 / 16, 10001]] 0 .nearest = some [[10000, 10001], [10000 + 1 / 16, 10001]] ∧
+    (linkedProblems {} loG).map (fun r => r.1) = some [10000, 10000 + 1 / 16, 10001] ∧
+    linkedGroup {} loG = some ([0, 0, 0, 0, 0, 0, 0, 0, 0, 0, 0, 0], []) ∧
+    (C03.linkedResults {} loG).map (fun rs => rs.map (fun r => (r.clpLabels, r.clps))) =
+      some [(["decay", "artifact"], [[2, 3], [4, 5]]), (["artifact", "decay"], [[1, 7], [5, 4]])] := by
+  decide +kernel
+
+/-- with a tolerance that covers 1/16 the two points ARE linked (and the example group would no longer be at the truth) -/
+example : alignAxes [[10000, 10001], [10000 + 1 / 16, 10001]] (1 / 8) .nearest = some [[10000, 10001], [10000, 10001]] := by
+  decide +kernel
 
 /-! #### the own-index statement without the sortedness hypothesis is false (recorded finding) -/
 
